@@ -1,8 +1,9 @@
 (* Correspondence checker for everything that goes through table.Dispatch /
    DispatchAggregate (C01 C02 C03-sites C04 C11 C19): replays the observed
    events through Model.Table and compares the projected observables. *)
-From CRNG Require Import Base.ListX Base.Bytes Lib.Regex Model.Fields Model.Validate Model.Matcher Model.Rewriter
-  Model.Hashing Model.Table Check.Common.
+From Coq Require Import Floats.
+From CRNG Require Import Base.ListX Base.Bytes Base.Decimal Lib.Regex Lib.GoFloat Model.Fields Model.Validate Model.Matcher Model.Rewriter
+  Model.Hashing Model.Table Model.Aggregator Check.Common.
 
 Record ev_obs := {
   eo_cnt : list Z;                          (* in, invalid, out_of_order, blacklist, unroutable deltas *)
@@ -11,9 +12,10 @@ Record ev_obs := {
   eo_routes : list (nat * bytes);
   eo_dests : list (nat * nat * Z);
   eo_aggs : list Z;
-  eo_val_ok : bool; eo_ts_ok : bool; eo_ts : N }.
+  eo_val_ok : bool; eo_ts_ok : bool; eo_ts : N;
+  eo_bits : Z }.                             (* float64 bits of the value token (oracle) *)
 
-Inductive event := ELine (b : bytes) | EAgg (b : bytes).
+Inductive event := ELine (b : bytes) | EAgg (b : bytes) | ENow (now : N) | ETick (now : N).
 
 Definition verr_code (e : verr) : N * N :=
   match e with
@@ -60,18 +62,90 @@ Definition outcome_ok (mask : N) (t : table) (line : bytes) (o : outcome) (islin
   && (negb (bit mask 5) ||
       list_eqb Z.eqb (map (fun i => b2z (existsb (Nat.eqb i) (o_agg_consumed o))) (seq 0 (length (t_aggs t)))) (eo_aggs e)).
 
-Fixpoint table_run (mask : N) (t : table) (om : omap) (evs : list (event * ev_obs)) (i : nat) : option nat :=
+(* ---- the system: table + aggregators (primitive binary64 floats) ---------- *)
+Definition pf_lt (a b : float) : bool := PrimFloat.ltb a b.
+Definition S_proc := proc float.
+Definition S_step (f : fn) := astep float S_proc (proc_new float f) (proc_add float PrimFloat.add pf_lt)
+  (proc_flush float PrimFloat.add PrimFloat.sub PrimFloat.mul PrimFloat.div PrimFloat.sqrt pf_lt float_of_N).
+
+Definition agg_cfg : Type := fn * N * N.       (* function, interval, wait *)
+Definition sys_state : Type := omap * list (astate S_proc) * N.    (* order registers, aggregator states, clock *)
+
+Fixpoint update_nth {A} (l : list A) (i : nat) (f : A -> A) : list A :=
+  match l, i with
+  | [], _ => []
+  | x :: l', O => f x :: l'
+  | x :: l', S i' => x :: update_nth l' i' f
+  end.
+
+(* feed the consumed point to the aggregators that took it *)
+Definition feed_aggs (t : table) (cfgs : list agg_cfg) (sts : list (astate S_proc)) (o : outcome) (bits : Z) (ts now : N)
+  : list (astate S_proc) :=
+  fold_left (fun sts i =>
+    match nth_error (t_aggs t) i, nth_error cfgs i with
+    | Some a, Some (f, interval, wait) =>
+        match match_regex_and_expand (a_matcher a) (o_name o) (a_outfmt a) with
+        | Some k => update_nth sts i (fun st => fst (S_step f interval wait st (APoint float k (float_of_bits bits) ts now)))
+        | None => sts
+        end
+    | _, _ => sts
+    end) (o_agg_consumed o) sts.
+
+Definition line_of (q : N) (kv : bytes * float) : bytes :=
+  fst kv ++ [32] ++ format_f6 (snd kv) ++ [32] ++ N_to_dec q.
+
+(* tick every aggregator: new states and all emitted lines *)
+Fixpoint tick_aggs (cfgs : list agg_cfg) (sts : list (astate S_proc)) (now : N) : list (astate S_proc) * list bytes :=
+  match cfgs, sts with
+  | (f, interval, wait) :: cfgs', st :: sts' =>
+      let '(st', out) := S_step f interval wait st (ATick float now) in
+      let '(sts'', lines) := tick_aggs cfgs' sts' now in
+      (st' :: sts'', flat_map (fun qb => map (line_of (fst qb)) (snd qb)) out ++ lines)
+  | _, _ => (sts, [])
+  end.
+
+Fixpoint remove_one (x : bytes) (l : list bytes) : option (list bytes) :=
+  match l with
+  | [] => None
+  | y :: l' => if beqb x y then Some l' else option_map (cons y) (remove_one x l')
+  end.
+Fixpoint perm_eqb (a b : list bytes) : bool :=
+  match a with
+  | [] => match b with [] => true | _ => false end
+  | x :: a' => match remove_one x b with Some b' => perm_eqb a' b' | None => false end
+  end.
+
+(* a tick: every emitted line goes through DispatchAggregate; per route the captured lines are compared as a multiset
+   (aggregators flush concurrently) *)
+Definition tick_ok (mask : N) (t : table) (lines : list bytes) (e : ev_obs) : bool :=
+  let outs := map (dispatch_aggregate rx_search (t_routes t)) lines in
+  let unroutable := Z.of_nat (length (filter o_unroutable outs)) in
+  (negb (bit mask 0) || list_eqb Z.eqb (eo_cnt e) [0; 0; 0; 0; unroutable]%Z)
+  && (negb (bit mask 2) ||
+      forallb (fun ri => perm_eqb (flat_map (fun o => map snd (filter (fun x => Nat.eqb (fst x) ri) (o_routes o))) outs)
+                                  (map snd (filter (fun x => Nat.eqb (fst x) ri) (eo_routes e))))
+              (seq 0 (length (t_routes t))))
+  && (negb (bit mask 1) || Nat.eqb (eo_newbad e) 0)
+  && (negb (bit mask 5) || forallb (fun z => (z =? 0)%Z) (eo_aggs e)).
+
+Fixpoint table_run (mask : N) (t : table) (cfgs : list agg_cfg) (st : sys_state) (evs : list (event * ev_obs)) (i : nat) : option nat :=
+  let '(om, sts, now) := st in
   match evs with
   | [] => None
   | (ELine b, e) :: evs' =>
       let '(om', o) := dispatch rx_search t om b (eo_val_ok e) (eo_ts_ok e) (eo_ts e) in
-      if outcome_ok mask t b o true e then table_run mask t om' evs' (S i) else Some i
+      if outcome_ok mask t b o true e
+      then table_run mask t cfgs (om', feed_aggs t cfgs sts o (eo_bits e) (eo_ts e) now, now) evs' (S i) else Some i
   | (EAgg b, e) :: evs' =>
       let o := dispatch_aggregate rx_search (t_routes t) b in
-      if outcome_ok mask t b o false e then table_run mask t om evs' (S i) else Some i
+      if outcome_ok mask t b o false e then table_run mask t cfgs st evs' (S i) else Some i
+  | (ENow n, _) :: evs' => table_run mask t cfgs (om, sts, n) evs' (S i)
+  | (ETick n, e) :: evs' =>
+      let '(sts', lines) := tick_aggs cfgs sts n in
+      if tick_ok mask t lines e then table_run mask t cfgs (om, sts', n) evs' (S i) else Some i
   end.
 
-Record table_case := { tc_mask : N; tc_table : table; tc_events : list (event * ev_obs); tc_mutated : bool;
+Record table_case := { tc_mask : N; tc_table : table; tc_aggcfg : list agg_cfg; tc_events : list (event * ev_obs); tc_mutated : bool;
                         tc_agg_keys : option (list bytes) }.   (* stalled-aggregator runs: series names finally emitted *)
 
 (* series names the aggregations must emit: one per consumed (rewritten) name, plus the warm-up point *)
@@ -85,7 +159,7 @@ Fixpoint expected_keys (t : table) (om : omap) (evs : list (event * ev_obs)) : l
                                      | Some k => [k] | None => [] end
                          | None => [] end) (o_agg_consumed o)
       ++ expected_keys t om' evs'
-  | (EAgg _, _) :: evs' => expected_keys t om evs'
+  | _ :: evs' => expected_keys t om evs'
   end.
 
 Definition warm_keys (t : table) : list bytes :=
@@ -98,7 +172,7 @@ Definition subset (a b : list bytes) : bool := forallb (fun x => existsb (beqb x
 (* the table model pins every projected observable: a difference is a violation of the property under check *)
 Definition table_verdict (c : table_case) : N :=
   if tc_mutated c then 2 else
-  match table_run (tc_mask c) (tc_table c) [] (tc_events c) 0 with
+  match table_run (tc_mask c) (tc_table c) (tc_aggcfg c) ([], map (fun _ => a_init S_proc) (tc_aggcfg c), 0) (tc_events c) 0 with
   | None =>
       match tc_agg_keys c with
       | None => 0
@@ -108,7 +182,8 @@ Definition table_verdict (c : table_case) : N :=
   | Some _ => 2
   end.
 
-Definition table_first_bad (c : table_case) : option nat := table_run (tc_mask c) (tc_table c) [] (tc_events c) 0.
+Definition table_first_bad (c : table_case) : option nat :=
+  table_run (tc_mask c) (tc_table c) (tc_aggcfg c) ([], map (fun _ => a_init S_proc) (tc_aggcfg c), 0) (tc_events c) 0.
 
 (* what the model expects for event i (diagnostics) *)
 Fixpoint table_expected (t : table) (om : omap) (evs : list (event * ev_obs)) : list outcome :=
@@ -117,6 +192,7 @@ Fixpoint table_expected (t : table) (om : omap) (evs : list (event * ev_obs)) : 
   | (ELine b, e) :: evs' =>
       let '(om', o) := dispatch rx_search t om b (eo_val_ok e) (eo_ts_ok e) (eo_ts e) in o :: table_expected t om' evs'
   | (EAgg b, e) :: evs' => dispatch_aggregate rx_search (t_routes t) b :: table_expected t om evs'
+  | _ :: evs' => no_outcome :: table_expected t om evs'
   end.
 Definition table_diag (c : table_case) : option (nat * option outcome) :=
   match table_first_bad c with
